@@ -16,6 +16,7 @@ mod putres;
 mod runner;
 mod subj;
 mod types;
+mod tys;
 
 use runner::*;
 use subj::*;
@@ -35,6 +36,9 @@ pub struct Args {
     pub corpus: Option<String>,
     /// C17: every history is run five times, once per BuildHasher (case i uses stream i/5, hasher i%5)
     pub hgroup: bool,
+    /// large capacities (hundreds of entries), so that lists fill up and churn at sizes the small configurations
+    /// never reach
+    pub big: bool,
 }
 
 fn parse_args() -> Args {
@@ -49,6 +53,7 @@ fn parse_args() -> Args {
         bfs: 0,
         corpus: None,
         hgroup: false,
+        big: false,
     };
     let mut i = 2;
     while i < a.len() {
@@ -61,6 +66,7 @@ fn parse_args() -> Args {
             "--bfs" => r.bfs = v.parse().unwrap(),
             "--corpus" => r.corpus = Some(v),
             "--hgroup" => r.hgroup = v != "0",
+            "--big" => r.big = v != "0",
             "--shard" => {
                 let p: Vec<&str> = v.split('/').collect();
                 r.shard = (p[0].parse().unwrap(), p[1].parse().unwrap());
@@ -109,7 +115,7 @@ fn slice_lru(a: &Args, t: &mut Trace) {
             continue;
         }
         let mut r = rng_for(a.seed, stream);
-        let cap = if r.chance(1, 40) { 128 } else { *r.pick(&caps) };
+        let cap = if a.big { *r.pick(&[100u64, 257, 300, 513]) } else if r.chance(1, 40) { 128 } else { *r.pick(&caps) };
         let ctor = r.below(4);
         let ctor = if a.hgroup { if ctor >= 2 { 3 } else { 1 } } else { ctor };
         let hmode = r.below(5);
@@ -117,6 +123,8 @@ fn slice_lru(a: &Args, t: &mut Trace) {
         let len = r.range(a.len / 4 + 1, a.len) as usize;
         let mut kg = gen::KeyGen::new(cap + 3);
         let mut vg = gen::ValGen(1000);
+        let mut bias = gen::BigBias::new(2 * cap + 7);
+        let big = a.big;
         let cfg = [cap as i128, (ctor >= 2) as i128];
         let id = format!("lru-s{}-i{}", a.seed, i);
         let meta = format!("ctor={} hasher={}", ctor, hmode);
@@ -131,7 +139,8 @@ fn slice_lru(a: &Args, t: &mut Trace) {
                 if step >= len {
                     None
                 } else {
-                    Some(gen::lru_op(&mut r, &mut kg, &mut vg, snap, cap))
+                    let op = gen::lru_op(&mut r, &mut kg, &mut vg, snap, cap);
+                    Some(if big { bias.shape(&mut r, &mut vg, op, &gen::lru_resident(snap), &[6, 7, 11, 23], cap) } else { op })
                 }
             },
             &tag,
@@ -139,6 +148,71 @@ fn slice_lru(a: &Args, t: &mut Trace) {
     }
 }
 
+
+/// RawLRU under a hasher whose answers change while keys are stored (`VHasher::Liar`, op 96 changes the salt): what a
+/// key with interior state read by its `Hash` does, in safe code.  The index then loses and duplicates keys, so no model
+/// predicts the results; the histories are judged on the implementation only: the structural audit after every call,
+/// the weak audit after a panic of the library's own `unwrap`s, the ledger, the poison, the blocks at drop (C03, C04)
+fn slice_lruliar(a: &Args, t: &mut Trace) {
+    let caps: [u64; 8] = [1, 2, 2, 3, 3, 4, 5, 8];
+    for i in 0..a.n {
+        let (mine, stream, _) = case_plan(a, i);
+        if !mine {
+            continue;
+        }
+        let mut r = rng_for(a.seed, stream + 96_000_000);
+        let cap = *r.pick(&caps);
+        let ctor = if r.chance(1, 2) { 1 } else { 3 };
+        let len = r.range(a.len / 4 + 1, a.len) as usize;
+        let mut kg = gen::KeyGen::new(cap + 3);
+        let mut vg = gen::ValGen(1000);
+        let cfg = [cap as i128, (ctor >= 2) as i128];
+        let id = format!("lruliar-s{}-i{}", a.seed, i);
+        let meta = format!("ctor={} hasher=5", ctor);
+        run_case(
+            t,
+            &id,
+            17,
+            &cfg,
+            &meta,
+            &|| Box::new(LiarSubj(mk_lru(cap as usize, ctor, 5))),
+            &mut |step, snap| {
+                if step >= len {
+                    None
+                } else if r.chance(1, 10) {
+                    Some(vec![96, *r.pick(&[0u64, 1, 2, 3, 8, 1 << 40, u64::MAX]) as i128])
+                } else {
+                    // (a shrinking `resize` loops on `remove_lru` until the index is small enough: with an index that
+                    // cannot find the least recent key it need not end - non-termination is among the outcomes the
+                    // standard library allows for a key whose hash changes; it is not a memory error)
+                    let op = gen::lru_op(&mut r, &mut kg, &mut vg, &vec![], cap);
+                    Some(if op[0] == 11 { vec![8] } else { op })
+                }
+            },
+            &tag,
+        );
+    }
+}
+
+/// a subject whose snapshot is the weak audit of its lists (`code chain_len index_len` per list): what is left of
+/// the structure when the index cannot be trusted
+pub struct LiarSubj(pub Box<dyn Subject>);
+impl Subject for LiarSubj {
+    fn apply(&mut self, op: &[i128]) -> Ints {
+        self.0.apply(op)
+    }
+    fn snapshot(&self) -> Ints {
+        let w = self.0.weak_audit(1 << 16);
+        if w.first() != Some(&0) {
+            // damaged: the line is written, the object is leaked and not used again
+            crate::subj::AUDIT_BAD.store(true, std::sync::atomic::Ordering::Relaxed);
+        }
+        w
+    }
+    fn weak_audit(&self, limit: usize) -> Ints {
+        self.0.weak_audit(limit)
+    }
+}
 
 /// RawLRU with resize to huge capacities (usize::MAX, 2^63, ...): "resize to any value" of C05.  The layer-L
 /// model keeps capacities in unary, so these histories are judged on the implementation only (no panic,
@@ -634,18 +708,23 @@ fn slice_comp(a: &Args, t: &mut Trace, which: u32) {
         let mut vg = gen::ValGen(1000);
         match which {
             1 => {
-                let pc = if r.chance(1, 30) { 20 } else { r.range(1, 4) };
-                let fc = if r.chance(1, 30) { 20 } else { r.range(1, 4) };
+                let pc = if a.big { *r.pick(&[60u64, 130, 257]) } else if r.chance(1, 30) { 20 } else { r.range(1, 4) };
+                let fc = if a.big { *r.pick(&[60u64, 130, 257]) } else if r.chance(1, 30) { 20 } else { r.range(1, 4) };
                 let mut kg = gen::KeyGen::new(pc + fc + 3);
+                let mut bias = gen::BigBias::new(2 * (pc + fc) + 7);
+                let big = a.big;
                 let cfg = [pc as i128, fc as i128];
                 let id = format!("slru-s{}-i{}", a.seed, i);
                 let meta = format!("hasher={} via={}", hmode, via);
                 run_case(t, &id, 1, &cfg, &meta, &|| if via == 1 { mk_slru_plain(pc as usize, fc as usize) } else { mk_slru(pc as usize, fc as usize, hmode) },
-                    &mut |step, snap| if step >= len { None } else { Some(gen::slru_op(&mut r, &mut kg, &mut vg, snap)) },
+                    &mut |step, snap| if step >= len { None } else { {
+                        let op = gen::slru_op(&mut r, &mut kg, &mut vg, snap);
+                        Some(if big { bias.shape(&mut r, &mut vg, op, &gen::multi_resident(snap, 2, 2).0.concat(), &[6, 7, 39, 40], 0) } else { op })
+                    } },
                     &tag);
             }
             2 => {
-                let size = if r.chance(1, 30) { 64 } else { r.range(1, 8) } as usize;
+                let size = if a.big { *r.pick(&[12u64, 40, 100, 257, 400]) } else if r.chance(1, 30) { 64 } else { r.range(1, 8) } as usize;
                 // pick ratios for which construction succeeds (ghost quota >= 1)
                 let mut rri = r.below(RATIOS.len() as u64) as usize;
                 let mut gri = r.below(RATIOS.len() as u64) as usize;
@@ -660,21 +739,34 @@ fn slice_comp(a: &Args, t: &mut Trace, which: u32) {
                 }
                 let (rs, es) = twoq_quotas(size, RATIOS[rri], RATIOS[gri]);
                 let mut kg = gen::KeyGen::new(size as u64 + es as u64 + 3);
+                let mut bias = gen::BigBias::new(2 * (size as u64 + es as u64) + 7);
+                let big = a.big;
                 let cfg = [size as i128, rs as i128, es as i128];
                 let id = format!("twoq-s{}-i{}", a.seed, i);
                 let meta = format!("hasher={} rri={} gri={} via={}", hmode, rri, gri, via);
                 run_case(t, &id, 2, &cfg, &meta, &|| if via == 1 { mk_twoq_plain(size, rri, gri) } else { mk_twoq(size, RATIOS[rri], RATIOS[gri], hmode) },
-                    &mut |step, snap| if step >= len { None } else { Some(gen::twoq_op(&mut r, &mut kg, &mut vg, snap)) },
+                    &mut |step, snap| if step >= len { None } else { {
+                        let op = gen::twoq_op(&mut r, &mut kg, &mut vg, snap);
+                        let res: Vec<u64> = gen::multi_resident(snap, 3, 3).0.into_iter().take(2).flatten().collect();
+                        Some(if big { bias.shape(&mut r, &mut vg, op, &res, &[6, 7], 0) } else { op })
+                    } },
                     &tag);
             }
             _ => {
-                let size = if r.chance(1, 30) { 32 } else { r.range(1, 6) } as usize;
+                let size = if a.big { *r.pick(&[8u64, 12, 20, 100, 257]) } else if r.chance(1, 30) { 32 } else { r.range(1, 6) } as usize;
                 let mut kg = gen::KeyGen::new(2 * size as u64 + 3);
+                let mut bias = gen::BigBias::new(3 * size as u64 + 7);
+                let big = a.big;
                 let cfg = [size as i128];
                 let id = format!("arc-s{}-i{}", a.seed, i);
                 let meta = format!("hasher={} via={}", hmode, via);
                 run_case(t, &id, 3, &cfg, &meta, &|| if via == 1 { mk_arc_plain(size) } else { mk_arc(size, hmode) },
-                    &mut |step, snap| if step >= len { None } else { Some(gen::arc_op(&mut r, &mut kg, &mut vg, snap)) },
+                    &mut |step, snap| if step >= len { None } else { {
+                        let op = gen::arc_op(&mut r, &mut kg, &mut vg, snap);
+                        let l = gen::multi_resident(snap, 2, 4).0;
+                        let res: Vec<u64> = l[0].iter().chain(l[2].iter()).cloned().collect();
+                        Some(if big { bias.shape(&mut r, &mut vg, op, &res, &[6, 7], 0) } else { op })
+                    } },
                     &tag);
             }
         }
@@ -693,7 +785,9 @@ fn slice_lfu(a: &Args, t: &mut Trace, which: u32) {
         let len = r.range(a.len / 4 + 1, a.len) as usize;
         match which {
             4 => {
-                let (w, prot, prob) = if r.chance(1, 25) {
+                let (w, prot, prob) = if a.big {
+                    (r.range(5, 20), *r.pick(&[100u64, 257]), *r.pick(&[60u64, 130]))
+                } else if r.chance(1, 25) {
                     (r.range(1, 3), r.range(8, 20), r.range(2, 6))
                 } else {
                     (r.range(1, 3), r.range(1, 3), r.range(1, 3))
@@ -705,11 +799,16 @@ fn slice_lfu(a: &Args, t: &mut Trace, which: u32) {
                 let hmode = hforce.unwrap_or(hmode);
                 let mut kg = gen::KeyGen::new(w + prot + prob + 4);
                 let mut vg = gen::ValGen(1000);
+                let mut bias = gen::BigBias::new(2 * (w + prot + prob) + 7);
+                let big = a.big;
                 let id = format!("wtiny-s{}-i{}", a.seed, i);
                 let meta = format!("w={} prot={} prob={} samples={} fpi={} kh={} hasher={}", w, prot, prob, samples, fpi, khmode, hmode);
                 run_case(t, &id, 4, &[], &meta,
                     &|| Box::new(lfu::mk_wtiny(w as usize, prot as usize, prob as usize, samples as usize, FPS[fpi], khmode, hmode)),
-                    &mut |step, snap| if step >= len { None } else { Some(gen::wtiny_op(&mut r, &mut kg, &mut vg, snap)) },
+                    &mut |step, snap| if step >= len { None } else { {
+                        let op = gen::wtiny_op(&mut r, &mut kg, &mut vg, snap);
+                        Some(if big { bias.shape(&mut r, &mut vg, op, &gen::multi_resident(snap, 3, 3).0.concat(), &[6, 7], 0) } else { op })
+                    } },
                     &tag);
             }
             5 => {
@@ -727,6 +826,13 @@ fn slice_lfu(a: &Args, t: &mut Trace, which: u32) {
             _ => {
                 let samples = r.range(0, 8);
                 let ctor = r.below(7);
+                // --big: sample sizes no collection can hold ("sample everything"); judged on the implementation only
+                let ctor = if a.big { *r.pick(&[1u64, 3, 5, 6]) } else { ctor };
+                let samples = if a.big {
+                    *r.pick(&[u64::MAX, u64::MAX - 1, u64::MAX / 2, (u64::MAX / 2) + 1, 1 << 62, 1 << 59, (1 << 59) + 1, 1 << 40, 1 << 32])
+                } else {
+                    samples
+                };
                 let samples = if matches!(ctor, 0 | 2 | 4) { 5 } else { samples };
                 let mc = if r.chance(1, 12) { gen::extreme_i64(&mut r) as i64 } else { r.below(500) as i64 - 50 };
                 let mut pool = Vec::new();
@@ -915,6 +1021,8 @@ pub fn mk_subject(kind: u32, cfg: &[i128], meta: &std::collections::HashMap<Stri
         5 => Box::new(lfu::mk_tiny(m("size") as usize, m("samples") as usize, FPS[m("fpi") as usize])),
         6 => Box::new(lfu::mk_sampled(cfg[0] as i64, cfg[1] as usize, m("ctor"))),
         7 => Box::new(putres::PutResSubj),
+        16 => tys::mk_typed(cfg[0] as u64, cfg[1] as u64, cfg[2] as usize),
+        17 => Box::new(LiarSubj(mk_lru(cfg[0] as usize, m("ctor"), 5))),
         8 => Box::new(ctor::CtorSubj::default()),
         9 => Box::new(hlru::HLruSubj::new(cfg[0] as usize, m("hasher"))),
         11 => Box::new(hlru::HSlruSubj::new(cfg[0] as usize, cfg[1] as usize, m("hasher"))),
@@ -1100,6 +1208,38 @@ fn slice_putres(a: &Args, t: &mut Trace) {
     }
 }
 
+/// the five cache types over other key / value types (tys.rs); kind 16, judged on the implementation only
+fn slice_types(a: &Args, t: &mut Trace) {
+    for i in 0..a.n {
+        let (mine, stream, _) = case_plan(a, i);
+        if !mine {
+            continue;
+        }
+        let mut r = rng_for(a.seed, stream + 16_000_000);
+        let inst = i % tys::N_INST;
+        let cache = (i / tys::N_INST) % 5;
+        let size = *r.pick(&[1u64, 2, 3, 4, 8]) as usize;
+        let len = r.range(a.len / 4 + 1, a.len) as usize;
+        let mut kg = gen::KeyGen::new(2 * size as u64 + 5);
+        let mut vg = gen::ValGen(1000);
+        let id = format!("types-s{}-i{}", a.seed, i);
+        let meta = format!("inst={} cache={}", inst, cache);
+        let cfg = [inst as i128, cache as i128, size as i128];
+        run_case(t, &id, 16, &cfg, &meta, &|| tys::mk_typed(inst, cache, size),
+            &mut |step, _| {
+                if step >= len {
+                    return None;
+                }
+                Some(match r.below(100) {
+                    0..=4 => vec![11, r.range(0, 2 * size as u64 + 2) as i128],
+                    5..=9 => vec![25],
+                    _ => gen::trait_op(&mut r, &mut kg, &mut vg, &[]),
+                })
+            },
+            &tag);
+    }
+}
+
 fn main() {
     // panics are expected outcomes for some slices: keep stderr quiet
     let a = parse_args();
@@ -1108,6 +1248,7 @@ fn main() {
         // unwinding) aborts the process: the current case is saved first, in replay format, and the
         // process exits with status 78 so that the run reports the history instead of a crash
         let abort_path = format!("{}.abort", a.out);
+        let _ = alloc::OOM_PATH.set(abort_path.clone());
         std::panic::set_hook(Box::new(move |info| {
             let _ = info;
             // a second panic before the first one was caught by the runner's catch_unwind cannot unwind
@@ -1153,6 +1294,7 @@ fn main() {
     match a.slice.as_str() {
         "lru" => slice_lru(&a, &mut t),
         "lruhuge" => slice_lruhuge(&a, &mut t),
+        "lruliar" => slice_lruliar(&a, &mut t),
         "slru" => slice_comp(&a, &mut t, 1),
         "twoq" => slice_comp(&a, &mut t, 2),
         "arc" => slice_comp(&a, &mut t, 3),
@@ -1166,6 +1308,7 @@ fn main() {
         "comp_bfs" => slice_comp_bfs(&a, &mut t),
         "hlru" => slice_hlru(&a, &mut t),
         "fault" => slice_fault(&a, &mut t),
+        "types" => slice_types(&a, &mut t),
         "flru" => slice_flru(&a, &mut t),
         "hslru" => slice_hslru(&a, &mut t),
         "htwoq" => slice_hcomp(&a, &mut t, 12),
